@@ -38,8 +38,8 @@ CHECKS = {
    note="Trusted: directory state is observed at window boundaries (one directory operation per window), not in the middle of an operation; handle accounting relies on the Load closer wrapper and the os hook.",
    technique="deterministic simulation: directory/handle/lock invariants evaluated after every directory operation of seeded runs"),
  "C15": dict(level="exploration", ref="3/C15",
-   text="Seeded search under a -race build: concurrent windows release a seeded set of 2-6 parked actors at once (batches, several clients searching one shared held Reader and several clients searching a fresh Writer.Reader() at once - first use of a snapshot's caches - incl. optimised conjunction/disjunction and generated queries, stored-field loads, MemoryUsed, reader acquisition, persister, merger, closer) so that overlapping regions carry no happens-before edge and the race detector reports any conflicting pair regardless of real timing; Close is issued at arbitrary scheduled moments once callers have returned and must terminate (deterministic hang verdict; a loop that spins instead of blocking is caught by a wall-clock watchdog in the worker and reported as livelock with the spinning function) and leave a directory that reopens with every acknowledged batch. Two genuine races are listed known findings with call-site signatures and are exercised by dedicated run variants only.",
-   note="Trusted: the race detector (no false positives); which regions overlap is decided by the tape but concurrent windows need not replay exactly, so a race report is the verdict itself; for ice v2 the harness serialises stored-field access (shield) outside the dedicated probe; index.Writer.Stats() is called only in its dedicated probe.",
+   text="Seeded search under a -race build: concurrent windows release a seeded set of 2-6 parked actors at once (batches, several clients searching one shared held Reader and several clients searching a fresh Writer.Reader() at once - first use of a snapshot's caches - incl. optimised conjunction/disjunction and generated queries, stored-field loads, MemoryUsed, reader acquisition, persister, merger, closer) so that overlapping regions carry no happens-before edge and the race detector reports any conflicting pair regardless of real timing; Close is issued at arbitrary scheduled moments once callers have returned and must terminate (deterministic hang verdict; a loop that spins instead of blocking is caught by a wall-clock watchdog in the worker and reported as livelock with the spinning function) and leave a directory that reopens with every acknowledged batch; goroutines of bluge waiting for bluge's own mutexes in a window that never quiesces are reported as lock-deadlock, and the read-lock discipline is an invariant of every run (a goroutine read-locking an RWMutex it already read-holds is reported: recursive-read-lock). One genuine race (ice v2 stored-field buffer) is a listed known finding with a call-site signature, exercised by a dedicated run variant; the Stats() race was repaired.",
+   note="Trusted: the race detector (no false positives); which regions overlap is decided by the tape but concurrent windows need not replay exactly, so a race report is the verdict itself; for ice v2 the harness serialises stored-field access (shield) outside the dedicated probe; index.Writer.Stats() is called in one run variant.",
    technique="deterministic simulation with concurrent-window releases under the Go race detector; scheduled Close with bounded-step termination and reopen oracle"),
  "C12": dict(level="fault_enumeration", ref="3/C12",
    text="Storage-corruption fault injection on the snapshot files that simulated runs produce: per chosen file every truncation length, every single-bit flip (sampled on large files in the quick tier), appended tails, zero-fill, garbage and every length field replaced by 2^31..2^64-1, each opened in a child process through the mmap and non-mmap loaders next to older intact snapshots; round trip of every produced snapshot through the exported decoder. Enumeration of the damage space per file, files sampled from runs.",
